@@ -153,6 +153,59 @@ def compare_run(b, cfg, base, base_events, inserts, stats, views):
     return None
 
 
+def _wrap_worker(a):
+    """Serial arithmetic: a client is asked about and leaves; N-1 other connections come and go; the id is taken again (serial N+1)
+    and asked about at the same service; then the answer meant for the FIRST holder arrives.  N = 2^8, 2^12, 2^16: a serial that is
+    stored, printed or compared with fewer bits makes the two tags equal."""
+    b, n, seed = a["build"], a["n"], a["seed"]
+    rng = random.Random(seed)
+    cfg = proto.Config([("login.svc", "login")], timeout=3600)
+    cid = rng.choice([5, 9, 300])
+    res = {"viol": [], "stats": {"serial_wrap_scenarios": 1, "serial_wrap_filler_connections": 0, "stray_lines_inserted": 0, "stray_kinds": {}, "pairs_compared": 0,
+                                 "steps_compared": 0, "strays_hitting_live_id": 0, "strays_stale_serial": 0, "strays_malformed_tag": 0, "strays_wrong_service": 0},
+           "nontrivial": True, "hash": vcommon.h(["wrap", n, seed]), "inconc": []}
+    s = proto.Session(b, cfg)
+    try:
+        s.do({"t": "announce", "id": cid, "ip": "192.0.2.1", "port": 1001})
+        o1 = s.do({"t": "password", "id": cid, "text": "+x alice pw"})
+        s.do({"t": "disconnect", "id": cid})
+        filler = []
+        for k in range(n - 1):
+            filler += ["%d C 192.0.2.9 2000 10.0.0.1 6667" % (cid + 1), "%d D" % (cid + 1)]
+        outs = s.d.steps(filler)
+        res["stats"]["serial_wrap_filler_connections"] = n - 1
+        noisy = [o for o in outs if o]
+        s.do({"t": "announce", "id": cid, "ip": "192.0.2.2", "port": 1002})
+        o2 = s.do({"t": "password", "id": cid, "text": "+x bob pw"})
+        old_tag = "%x_1" % cid
+        new_tag = "%x_%x" % (cid, n + 1)
+        stray = {"t": "reply", "svc": "login.svc", "tag": old_tag, "text": "OK alice"}
+        o3 = s.do(stray)
+        res["stats"]["stray_lines_inserted"] = 1
+        res["stats"]["strays_stale_serial"] = 1
+        res["stats"]["strays_hitting_live_id"] = 1
+        o4 = s.do({"t": "reply", "svc": "login.svc", "tag": new_tag, "text": "OK bob"})
+        o5 = s.do({"t": "hurry", "id": cid})
+        r = s.finish()
+    except Exception:
+        s.kill()
+        raise
+    wit = {"wrap": n, "seed": seed}
+    if not r.clean() or noisy:
+        res["inconc"].append("serial-wrap scenario: daemon unclean or filler connections produced output (%s, %s)" % (r.describe(), noisy[:2]))
+        return res
+    q2 = [l for l in (o2 or []) if l.startswith("X login.svc ")]
+    if not q2 or (" " + new_tag + " ") not in q2[0]:
+        res["inconc"].append("serial-wrap scenario: expected the newcomer's query to carry tag %s, saw %s" % (new_tag, o2))
+    if o3:
+        res["viol"].append(("C04", "stray-output", "stray-output:serial-wrap", "after %d connections id %d is held by a newcomer (tag %s); the late answer to the first holder "
+                            "(%s) produced %s" % (n, cid, new_tag, proto.render(stray), o3), wit))
+    elif not any(l.startswith("R %d " % cid) and l.endswith(" bob") or (" bob " in l and l.startswith("R %d " % cid)) for l in (o4 or []) + (o5 or [])):
+        res["viol"].append(("C04", "later-difference", "later-difference:serial-wrap", "after %d connections the newcomer on id %d should end as account bob; saw %s / %s" % (
+            n, cid, o4, o5), wit))
+    return res
+
+
 def _slot_worker(a):
     """Directed: a service is removed by a reload while a client still awaits it, a later reload adds another service
     (which may land in the freed slot); a reply from the newcomer bearing the waiting client's tag is not owed."""
@@ -249,6 +302,7 @@ def run(chk, tier, scale=1.0):
                          nsets=4 if tier == "quick" else 8, kper=8, alt_services=alt))
     results = vcommon.pmap(_worker, jobs, chunksize=2)
     results += vcommon.pmap(_slot_worker, [dict(build=b, seed=chk.seed * 1000 + k) for k in range(int((24 if tier == "quick" else 400) * scale))])
+    results += vcommon.pmap(_wrap_worker, [dict(build=b, n=n_, seed=chk.seed * 10 + k) for k, n_ in enumerate([256, 4096, 65536, 65536] + ([1 << 20] if tier != "quick" else []))])
     for r in results:
         chk.add_case(r["hash"], r["nontrivial"])
         if r.get("sample"):
@@ -275,6 +329,11 @@ def run(chk, tier, scale=1.0):
 def replay(chk, rep):
     b = prun.build_daemon("c04-replay")
     w = rep["witness"]
+    if "wrap" in w:
+        r = _wrap_worker(dict(build=b, n=w["wrap"], seed=w["seed"]))
+        for v in r["viol"]:
+            print(v[3])
+        return 1 if r["viol"] else 0
     cfg = proto.Config.from_json(w["config"])
     events = w["events"]
     base = prun.replay_events(b, cfg, events)
